@@ -18,9 +18,9 @@ RULE = ('E4 fault enumerator (same spaces as C09: single-byte corruptions, '
         'case is one input; non-trivial = more than 12 steps executed (the '
         'decoder went past the envelope checks).')
 BOUNDS = {'quick': {'step_budget': '256 + 16*len', 'memory_budget':
-                    '256 KiB + 64*len (length/tag rewrites, truncations, shapes, large values); retained <= 64 KiB'},
+                    '256 KiB + 64*len (length/tag rewrites, truncations, shapes, large values); retained <= 1 MiB'},
           'thorough': {'step_budget': '256 + 16*len', 'memory_budget':
-                       '256 KiB + 64*len (all but small-string and pair tasks); retained <= 64 KiB'}}
+                       '256 KiB + 64*len (all but small-string and pair tasks); retained <= 1 MiB'}}
 ASSUMPTIONS = ['work is measured in steps = function entries + jumps executed '
                'inside pamqp (sys.monitoring); C-level work per step - '
                'slicing, UTF-8 decoding - is linear in the slice length and '
@@ -112,7 +112,11 @@ def check_one(ctx, data, label, memory=False, retained=False):
     return used
 
 
-RETAINED_LIMIT = 64 << 10
+# What may stay allocated once the result is dropped: a constant, whatever
+# the input (a bounded cache of a few hundred short strings is legitimate -
+# wave 12's correct refactoring r12-r2 keeps 66 KB; 64 KiB was too tight and
+# raised a false alarm on it)
+RETAINED_LIMIT = 1 << 20
 
 
 def run(task, ctx):
